@@ -27,7 +27,7 @@
 //!   * `u[1]`           the second u32-like immediate (field index, array size, data / elem index,
 //!                      source type of array_copy) and the type index of BlockType::FuncType /
 //!                      HeapType::Concrete
-//!   * `u[2]`           value-type selector (`% 5`) of BlockType::Type
+//!   * `u[2]`           value-type selector (`% 31`: 5 numeric/vector types, 12 abstract heap types x 2 nullabilities, concrete index x 2) of BlockType::Type
 //!   * `q[0]`           memarg offset, i64 / u64 constant
 //!   * `f32b` / `f64b`  float constant bit patterns
 //!   * `align`          memarg alignment exponent;  `flag`  `shared` bit of abstract heap types
@@ -106,16 +106,21 @@ fn ex_memarg(i: &Imm) -> wasm_encoder::MemArg {
     }
 }
 
-/// Block type: `u[0] % 3` picks Empty / Type(value type by `u[2] % 5`) / FuncType(TypeID(u[1])).
+/// Block type: `u[0] % 3` picks Empty / Type(value type by `u[2] % 31`) / FuncType(TypeID(u[1])).
 fn in_blockty(i: &Imm) -> WBlock {
     match i.u[0] % 3 {
         0 => WBlock::Empty,
-        1 => WBlock::Type(match i.u[2] % 5 {
+        1 => WBlock::Type(match i.u[2] % 31 {
             0 => DataType::I32,
             1 => DataType::I64,
             2 => DataType::F32,
             3 => DataType::F64,
-            _ => DataType::V128,
+            4 => DataType::V128,
+            // every abstract heap type in both nullabilities, and a concrete type index
+            n @ 5..=28 => super::edit::dt(crate::gen::VT::Abs(((n - 5) / 2) as u8, (n - 5) % 2 == 0)),
+            // (a type index above the format's limit of 1 000 000 types is no type index)
+            29 => DataType::Module { ty_id: i.u[1] % 1_000_000, nullable: true },
+            _ => DataType::Module { ty_id: i.u[1] % 1_000_000, nullable: false },
         }),
         _ => WBlock::FuncType(TypeID(i.u[1])),
     }
@@ -125,12 +130,15 @@ fn ex_blockty(i: &Imm) -> wasm_encoder::BlockType {
     use wasm_encoder::ValType;
     match i.u[0] % 3 {
         0 => wasm_encoder::BlockType::Empty,
-        1 => wasm_encoder::BlockType::Result(match i.u[2] % 5 {
+        1 => wasm_encoder::BlockType::Result(match i.u[2] % 31 {
             0 => ValType::I32,
             1 => ValType::I64,
             2 => ValType::F32,
             3 => ValType::F64,
-            _ => ValType::V128,
+            4 => ValType::V128,
+            n @ 5..=28 => crate::gen::VT::Abs(((n - 5) / 2) as u8, (n - 5) % 2 == 0).val(),
+            29 => ValType::Ref(wasm_encoder::RefType { nullable: true, heap_type: wasm_encoder::HeapType::Concrete(i.u[1] % 1_000_000) }),
+            _ => ValType::Ref(wasm_encoder::RefType { nullable: false, heap_type: wasm_encoder::HeapType::Concrete(i.u[1] % 1_000_000) }),
         }),
         _ => wasm_encoder::BlockType::FunctionType(i.u[1]),
     }
